@@ -145,6 +145,15 @@ def install_hooks():
         orig_orphan_init(self, message, operation_id)
         _log("Ckpt", id=operation_id, parent=None, action="?", typ="?", rejected=True)
 
+    if hasattr(ExecutionState, "ensure_not_orphaned"):
+        orig_ensure = ExecutionState.ensure_not_orphaned
+
+        def ensure(self, operation_id, parent_id):
+            # logged BEFORE the check (a failing one raises -> rejected Ckpt event): the event must not be later than the check
+            _log("OrphanCheck", id=operation_id)
+            orig_ensure(self, operation_id, parent_id)
+        ExecutionState.ensure_not_orphaned = ensure
+
     ConcurrentExecutor.execute = execute
     ConcurrentExecutor._execute_item_in_child_context = item
     ConcurrentExecutor._on_task_complete = done
